@@ -104,6 +104,19 @@ def _fit_pml(shape, faces, min_interior):
                 thick["thickness"] -= 1
 
 
+def _open_interior(shape, faces):
+    """Per-axis cell range clear of PML layers and of the one-cell PEC/PMC wall layers (a dipole inside a wall cell is
+    clamped by the wall and radiates nothing)."""
+    out = []
+    for ax, (lo, hi) in enumerate(scenes.interior_range(shape, faces)):
+        if faces[f"min_{'xyz'[ax]}"]["kind"] in ("pec", "pmc"):
+            lo += 1
+        if faces[f"max_{'xyz'[ax]}"]["kind"] in ("pec", "pmc"):
+            hi -= 1
+        out.append((lo, hi))
+    return out
+
+
 def _fix_poynting_axis(d):
     if d["type"] == "poynting" and not d.get("keep_all"):
         thin = [a for a in range(3) if d["hi"][a] - d["lo"][a] == 1]
@@ -122,7 +135,8 @@ def case_strategy(draw, ctx):
 
     sources = []
     for i in range(draw(st.sampled_from([1, 2, 2]))):
-        s = draw(scenes.source_strategy(shape, steps, faces, name=f"src{i}", switches=False, interior=interior))
+        s = draw(scenes.source_strategy(shape, steps, faces, name=f"src{i}", switches=False,
+                                        interior=_open_interior(shape, faces)))
         s["switch"] = _window(draw, steps)
         sources.append(s)
     planes = [(s["axis"], s["pos"]) for s in sources if s["type"].endswith("_plane")]
